@@ -107,7 +107,93 @@ let parse_packet = function
   | [ "DISCONNECT" ] -> PDisconnect
   | l -> failwith ("bad packet: " ^ String.concat " " l)
 
-type st = Dead | V4 of state
+
+(* ---------------------------------------------------------------- v5 *)
+let optn = function "-" -> None | s -> Some (n s)
+let pub5_s p =
+  Printf.sprintf "PUB:%s:%d:%d:%d%s" (qos_s p.q_qos) (i p.q_pkid) (i p.q_topic) (i p.q_payload)
+    (match p.q_alias with Some a -> Printf.sprintf ":a%d" (i a) | None -> "")
+let ack_s k x r = if i r = 0 then Printf.sprintf "%s:%d" k (i x) else Printf.sprintf "%s:%d:%d" k (i x) (i r)
+let opt_s = function Some x -> string_of_int (i x) | None -> "-"
+let packet5_s = function
+  | P5Auth -> "AUTH"
+  | P5Connect -> "CONNECT"
+  | P5ConnAck (sp, code, rm, tam) -> Printf.sprintf "CONNACK:%d:%d:%s:%s" (if sp then 1 else 0) (i code) (opt_s rm) (opt_s tam)
+  | P5Publish p -> pub5_s p
+  | P5PubAck (x, r) -> ack_s "PUBACK" x r
+  | P5PubRec (x, r) -> ack_s "PUBREC" x r
+  | P5PubRel (x, r) -> ack_s "PUBREL" x r
+  | P5PubComp (x, r) -> ack_s "PUBCOMP" x r
+  | P5Subscribe (x, k) -> Printf.sprintf "SUB:%d:%d" (i x) (i k)
+  | P5SubAck x -> Printf.sprintf "SUBACK:%d" (i x)
+  | P5Unsubscribe (x, k) -> Printf.sprintf "UNSUB:%d:%d" (i x) (i k)
+  | P5UnsubAck x -> Printf.sprintf "UNSUBACK:%d" (i x)
+  | P5PingReq -> "PINGREQ"
+  | P5PingResp -> "PINGRESP"
+  | P5Disconnect r -> if i r = 0 then "DISCONNECT" else Printf.sprintf "DISCONNECT:%d" (i r)
+let request5_s = function
+  | R5Publish p -> pub5_s p
+  | R5PubAck x -> Printf.sprintf "PUBACK:%d" (i x)
+  | R5PubRec x -> Printf.sprintf "PUBREC:%d" (i x)
+  | R5PubComp x -> Printf.sprintf "PUBCOMP:%d" (i x)
+  | R5PubRel x -> Printf.sprintf "PUBREL:%d" (i x)
+  | R5PingReq -> "PINGREQ"
+  | R5PingResp -> "PINGRESP"
+  | R5Subscribe k -> Printf.sprintf "SUB:0:%d" (i k)
+  | R5SubAck x -> Printf.sprintf "SUBACK:%d" (i x)
+  | R5Unsubscribe k -> Printf.sprintf "UNSUB:0:%d" (i k)
+  | R5UnsubAck x -> Printf.sprintf "UNSUBACK:%d" (i x)
+  | R5Disconnect -> "DISCONNECT"
+let event5_s = function
+  | Ev5In p -> "I(" ^ packet5_s p ^ ")"
+  | Ev5Out o -> "O(" ^ outgoing_s o ^ ")"
+let error5_s = function
+  | E5Unsolicited x -> Printf.sprintf "Unsolicited:%d" (i x)
+  | E5AwaitPingResp -> "AwaitPingResp"
+  | E5WrongPacket -> "WrongPacket"
+  | E5CollisionTimeout -> "CollisionTimeout"
+  | E5EmptySubscription -> "EmptySubscription"
+  | E5InvalidAlias (a, m) -> Printf.sprintf "InvalidAlias:%d:%d" (i a) (i m)
+  | E5ServerDisconnect r -> Printf.sprintf "ServerDisconnect:%d" (i r)
+  | E5ConnFail c -> Printf.sprintf "ConnFail:%d" (i c)
+let parse_pub5 = function
+  | [ q; id; t; p ] -> { q_qos = qos_of q; q_pkid = n id; q_topic = n t; q_payload = n p; q_alias = None }
+  | [ q; id; t; p; a ] -> { q_qos = qos_of q; q_pkid = n id; q_topic = n t; q_payload = n p; q_alias = optn a }
+  | _ -> failwith "bad PUB"
+let reason = function [] -> n "0" | [ r ] -> n r | _ -> failwith "bad reason"
+let parse_request5 = function
+  | "PUB" :: r -> R5Publish (parse_pub5 r)
+  | [ "PUBACK"; x ] -> R5PubAck (n x)
+  | [ "PUBREC"; x ] -> R5PubRec (n x)
+  | [ "PUBCOMP"; x ] -> R5PubComp (n x)
+  | [ "PUBREL"; x ] -> R5PubRel (n x)
+  | [ "PINGREQ" ] -> R5PingReq
+  | [ "PINGRESP" ] -> R5PingResp
+  | [ "SUB"; k ] -> R5Subscribe (n k)
+  | [ "SUBACK"; x ] -> R5SubAck (n x)
+  | [ "UNSUB"; k ] -> R5Unsubscribe (n k)
+  | [ "UNSUBACK"; x ] -> R5UnsubAck (n x)
+  | [ "DISCONNECT" ] -> R5Disconnect
+  | l -> failwith ("bad request: " ^ String.concat " " l)
+let parse_packet5 = function
+  | "PUB" :: r -> P5Publish (parse_pub5 r)
+  | "PUBACK" :: x :: r -> P5PubAck (n x, reason r)
+  | "PUBREC" :: x :: r -> P5PubRec (n x, reason r)
+  | "PUBREL" :: x :: r -> P5PubRel (n x, reason r)
+  | "PUBCOMP" :: x :: r -> P5PubComp (n x, reason r)
+  | [ "SUBACK"; x ] -> P5SubAck (n x)
+  | [ "UNSUBACK"; x ] -> P5UnsubAck (n x)
+  | [ "SUB"; x; k ] -> P5Subscribe (n x, n k)
+  | [ "UNSUB"; x; k ] -> P5Unsubscribe (n x, n k)
+  | [ "PINGREQ" ] -> P5PingReq
+  | [ "PINGRESP" ] -> P5PingResp
+  | [ "CONNECT" ] -> P5Connect
+  | [ "AUTH" ] -> P5Auth
+  | [ "CONNACK"; sp; c; rm; tam ] -> P5ConnAck (sp = "1", n c, optn rm, optn tam)
+  | "DISCONNECT" :: r -> P5Disconnect (reason r)
+  | l -> failwith ("bad packet: " ^ String.concat " " l)
+
+type st = Dead | V4 of state | V5 of state5
 
 (* argument "unfixed": run the model of the code before the fix: commits (State4Orig.v) *)
 let unfixed = Array.length Sys.argv > 1 && Sys.argv.(1) = "unfixed"
@@ -167,6 +253,34 @@ let known name =
       | _ -> failwith ("bad op: " ^ line));
   emit ()
 
+let tail5_s s =
+  let evs, s' = v5_drain s in
+  let t =
+    Printf.sprintf "EV[%s] INFL %d COLL %d"
+      (String.concat " " (List.map event5_s evs))
+      (i (v5_inflight s'))
+      (match v5_collision s' with Some _ -> 1 | None -> 0)
+  in
+  (t, s')
+
+let run5 s o =
+  match v5_step s o with
+  | Ok (s', Wrote5 p) ->
+      let t, s'' = tail5_s s' in
+      print_endline ("OK " ^ (match p with Some p -> packet5_s p | None -> "-") ^ " " ^ t);
+      V5 s''
+  | Ok (s', Cleaned5 l) ->
+      let t, s'' = tail5_s s' in
+      print_endline ("OK [" ^ String.concat " " (List.map request5_s l) ^ "] " ^ t);
+      V5 s''
+  | Err (s', e) ->
+      let t, s'' = tail5_s s' in
+      print_endline ("ERR " ^ error5_s e ^ " " ^ t);
+      V5 s''
+  | Panic _ ->
+      print_endline "PANIC";
+      Dead
+
 let main () =
   let st = ref Dead in
   iter_lines (fun line ->
@@ -174,6 +288,9 @@ let main () =
       | [] -> ()
       | [ "NEW"; "4"; max; manual ] ->
           st := V4 (v4_init (n max) (manual = "1"));
+          print_endline "NEW"
+      | [ "NEW"; "5"; max; manual ] ->
+          st := V5 (v5_init (n max) (manual = "1"));
           print_endline "NEW"
       | "NEW" :: _ -> failwith ("bad NEW: " ^ line)
       | toks -> (
@@ -184,6 +301,12 @@ let main () =
               | "OUT" :: r -> st := run4 s (Out (parse_request r))
               | "IN" :: r -> st := run4 s (Inc (parse_packet r))
               | [ "CLEAN" ] -> st := run4 s Clean
+              | _ -> failwith ("bad op: " ^ line))
+          | V5 s -> (
+              match toks with
+              | "OUT" :: r -> st := run5 s (Out5 (parse_request5 r))
+              | "IN" :: r -> st := run5 s (Inc5 (parse_packet5 r))
+              | [ "CLEAN" ] -> st := run5 s Clean5
               | _ -> failwith ("bad op: " ^ line))))
 
 let () = if Array.length Sys.argv > 2 && Sys.argv.(1) = "known" then known Sys.argv.(2) else main ()
